@@ -63,6 +63,8 @@ def run(run, ix, tier):
     from . import c38
     run.rule('K-R7', floor=3, desc='constants of another context are evaluated at the receiving context (X-R13)')
     c38.check_foreign_constants(run, ix, rule='K-R7')
+    run.rule('K-R8', floor=4, desc='eps, defined by its context\'s precision, is not evaluated at the receiver\'s (X-R14)')
+    c38.check_contextual_constants(run, ix, rule='K-R8')
     check_more_term_counts(run, ix)
     check_series_amplification(run, ix)
 
